@@ -45,14 +45,14 @@ struct Rec : RtData {
     void broadcast(const char *path, const char *args, ...) override { va_list va; va_start(va, args); char b[2048]; rtosc_vmessage(b, sizeof b, path, args, va); va_end(va); take("broadcast", b); }
     void broadcast(const char *msg) override { take("broadcast", msg); }
 };
-static void sub_state(JW &w, const char *k, const app1::Sub *s) { w.key(k); if (!s) { w.raw("{\"null\":true}"); return; } w.obj().kbool("null", false).knum("si", s->si).knum("sf", q4(s->sf)).kbool("st", s->st).end_obj(); }
+static void sub_state(JW &w, const char *k, const app1::Sub *s) { w.key(k); if (!s) { w.raw("{\"null\":true}"); return; } w.obj().kbool("null", false).knum("si", s->si).knum("sf", q4(s->sf)).kbool("st", s->st).key("sa").arr().num(s->sa[0]).num(s->sa[1]).end_arr().end_obj(); }
 static void state(JW &w, const App &a) {
     w.obj().knum("pc", a.pc).knum("pi", a.pi).knum("pn", a.pn).knum("pf", q4(a.pf)).knum("pg", q4(a.pg)).kbool("pt", a.pt).knum("po", a.po)
-     .kbytes("ps", (const uint8_t *)a.ps, strnlen(a.ps, 8)).knum("preset", a.preset).knum("dep", a.dep);
+     .kbytes("ps", (const uint8_t *)a.ps, strnlen(a.ps, 8)).knum("preset", a.preset).knum("dep", a.dep).knum("mode", a.mode).knum("dep2", a.dep2).knum("chain", a.chain).kbool("tg", a.tg).knum("dep3", a.dep3);
     w.key("ai").arr(); for (int i = 0; i < 3; ++i) w.num(a.ai[i]); w.end_arr();
     w.key("af").arr(); for (int i = 0; i < 3; ++i) w.num(q4(a.af[i])); w.end_arr();
     w.key("at").arr(); for (int i = 0; i < 2; ++i) w.boolean(a.at[i]); w.end_arr();
-    w.kbool("sub_on", a.sub_on); sub_state(w, "sub", &a.sub); w.key("subs").arr(); for (int i = 0; i < 2; ++i) { w.obj(); w.kbool("null", false).knum("si", a.subs[i].si).knum("sf", q4(a.subs[i].sf)).kbool("st", a.subs[i].st).end_obj(); } w.end_arr();
+    w.kbool("sub_on", a.sub_on); sub_state(w, "sub", &a.sub); w.key("subs").arr(); for (int i = 0; i < 2; ++i) { w.obj(); w.kbool("null", false).knum("si", a.subs[i].si).knum("sf", q4(a.subs[i].sf)).kbool("st", a.subs[i].st).key("sa").arr().num(a.subs[i].sa[0]).num(a.subs[i].sa[1]).end_arr().end_obj(); } w.end_arr();
     w.kbool("palloc", a.palloc); sub_state(w, "psub", a.psub); w.end_obj();
 }
 static void events(JW &w, const std::vector<Ev> &evs) {
